@@ -95,15 +95,22 @@ fn cmd_run(args: &[String]) -> i32 {
         };
         let res = runner::run_in_child(&req, props::c08::dry_run_table, Duration::from_secs(60));
         let lens = res.report["sample"]["frame_lens"].clone();
-        if res.status != "ok" || !lens.is_array() {
+        if res.status == "harness_error" {
             eprintln!("C08 dry run failed: {} {}", res.status, res.msg);
             return 2;
         }
-        let dir = verif_dir().join("target").join("runs");
-        let _ = std::fs::create_dir_all(&dir);
-        let path = dir.join(format!("c08-table-{}.json", std::process::id()));
-        std::fs::write(&path, lens.to_string()).expect("write table");
-        unsafe { std::env::set_var("VERIF_C08_TABLE", &path) };
+        if res.status != "ok" || !lens.is_array() {
+            // The fault-free exchange itself violates the property (e.g. a decoder that
+            // panics on a well-formed frame): no table, the batch below runs into the
+            // same violation and reports it the normal way.
+            eprintln!("C08 dry run: {} {} - continuing without the frame-length table", res.status, res.msg);
+        } else {
+            let dir = verif_dir().join("target").join("runs");
+            let _ = std::fs::create_dir_all(&dir);
+            let path = dir.join(format!("c08-table-{}.json", std::process::id()));
+            std::fs::write(&path, lens.to_string()).expect("write table");
+            unsafe { std::env::set_var("VERIF_C08_TABLE", &path) };
+        }
     }
     let tmp = verif_dir().join("target").join("runs").join(format!("{property}-{tier}-{}", std::process::id()));
     let lines = runner::run_batch(
